@@ -355,6 +355,55 @@ theorem not_needs_noslash {s : Str} (h : needsEscape s = false) : '\\' ∉ s := 
     exact ⟨'\\', hm, by decide⟩
   simp [this] at h
 
+/-! ## two consecutive spaces -/
+
+def hasDbl : Str → Bool
+  | [] => false
+  | c :: cs => (c == ' ' && cs.head? == some ' ') || hasDbl cs
+
+theorem head?_esc1_append (c : Char) (t : Str) :
+    ((esc1 c ++ t).head? == some ' ') = (c == ' ') := by
+  by_cases h1 : c = '\\'
+  · subst h1; simp [esc1]
+  · by_cases h2 : c = '\n'
+    · subst h2; simp [esc1]
+    · by_cases h3 : c = '\r'
+      · subst h3; simp [esc1]
+      · simp [esc1, h1, h2, h3]
+
+theorem head?_escapeSpec (s : Str) : ((escapeSpec s).head? == some ' ') = (s.head? == some ' ') := by
+  cases s with
+  | nil => rfl
+  | cons c cs => rw [escapeSpec_cons, head?_esc1_append]; simp
+
+theorem hasDbl_esc1_append (c : Char) (t : Str) :
+    hasDbl (esc1 c ++ t) = ((c == ' ' && t.head? == some ' ') || hasDbl t) := by
+  by_cases h1 : c = '\\'
+  · subst h1; simp [esc1, hasDbl]
+  · by_cases h2 : c = '\n'
+    · subst h2; simp [esc1, hasDbl]
+    · by_cases h3 : c = '\r'
+      · subst h3; simp [esc1, hasDbl]
+      · simp [esc1, h1, h2, h3, hasDbl]
+
+theorem hasDbl_escapeSpec (s : Str) : hasDbl (escapeSpec s) = hasDbl s := by
+  induction s with
+  | nil => rfl
+  | cons c cs ih =>
+    rw [escapeSpec_cons, hasDbl_esc1_append, ih, head?_escapeSpec]; rfl
+
+theorem hasDbl_append_of_head {a b : Str} (hb : (b.head? == some ' ') = false) :
+    hasDbl (a ++ b) = (hasDbl a || hasDbl b) := by
+  induction a with
+  | nil => simp [hasDbl]
+  | cons c cs ih =>
+    have e1 : hasDbl (c :: cs ++ b) = ((c == ' ' && (cs ++ b).head? == some ' ') || hasDbl (cs ++ b)) := rfl
+    have e2 : hasDbl (c :: cs) = ((c == ' ' && cs.head? == some ' ') || hasDbl cs) := rfl
+    rw [e1, e2, ih]
+    cases cs with
+    | nil => simp [hb, hasDbl]
+    | cons d ds => simp [Bool.or_assoc]
+
 /-! ## `split_once`, `rsplit_once` -/
 
 theorem splitOnce_sound {pat s a b : Str} (h : splitOnce pat s = some (a, b)) : s = a ++ pat ++ b := by
@@ -408,6 +457,18 @@ theorem dbl_isPrefixOf (c : Char) (cs : Str) :
         rw [a1, a2]
     simp [UNTAG_SEP, List.isPrefixOf, e1, e2]
 
+theorem splitOnce_none_iff (s : Str) : splitOnce UNTAG_SEP s = none ↔ hasDbl s = false := by
+  induction s with
+  | nil => simp [splitOnce, hasDbl, UNTAG_SEP]
+  | cons c cs ih =>
+    unfold splitOnce hasDbl
+    rw [dbl_isPrefixOf]
+    by_cases h : (c == ' ' && cs.head? == some ' ') = true
+    · simp [h]
+    · simp only [h, Bool.false_eq_true, if_false, Option.map_eq_none_iff, ih]
+      simp at h
+      simp
+
 theorem splitOnce_prefix_nospace {h : Str} (hs : ' ' ∉ h) (r : Str) :
     splitOnce UNTAG_SEP (h ++ ' ' :: ' ' :: r) = some (h, r) := by
   induction h with
@@ -419,6 +480,19 @@ theorem splitOnce_prefix_nospace {h : Str} (hs : ' ' ∉ h) (r : Str) :
     unfold splitOnce
     rw [dbl_isPrefixOf]
     simp [hc, ih hcs]
+
+theorem splitOnce_cons_ne {c : Char} (hc : c ≠ ' ') {t l r : Str}
+    (h : splitOnce UNTAG_SEP (c :: t) = some (l, r)) : ∃ l', l = c :: l' := by
+  unfold splitOnce at h
+  rw [dbl_isPrefixOf] at h
+  have hc' : (c == ' ') = false := by simp [hc]
+  simp only [hc', Bool.false_and, Bool.false_eq_true, if_false] at h
+  cases hs : splitOnce UNTAG_SEP t with
+  | none => rw [hs] at h; simp at h
+  | some ab =>
+    rw [hs] at h
+    simp at h
+    exact ⟨ab.1, h.1.symm⟩
 
 theorem rsplitOnce_sound {pat s a b : Str} (h : rsplitOnce pat s = some (a, b)) : s = a ++ pat ++ b := by
   induction s generalizing a with
@@ -724,7 +798,6 @@ def finish (isEscaped : Bool) (fileStr : Str) (hashBytes : List UInt8) : Res PEr
 def parseBody (isEscaped : Bool) (las : Str) : Res PErr Parsed :=
   (splitLine las).bind fun hf =>
     if byteLen hf.1 ≠ 2 * OUT_LEN then .err .hashLength
-    else if ¬ isAscii hf.1 then .err .hex
     else (decodeHashLoop OUT_LEN hf.1).bind fun hashBytes => finish isEscaped hf.2 hashBytes
 
 theorem parseCheckLine_eq (line0 : Str) :
@@ -747,33 +820,28 @@ theorem parseCheckLine_eq (line0 : Str) :
 
 theorem byteLen_TAG_PREFIX : byteLen TAG_PREFIX = 8 := by decide
 
-/-- `split_tagged_check_line` without its (unreachable) panic -/
-def taggedSplit (las : Str) : Option (Str × Str) :=
-  if TAG_PREFIX.isPrefixOf las then rsplitOnce TAG_SEP (las.drop 8) else none
-
-theorem splitTagged_eq (las : Str) : splitTagged las = .ok (taggedSplit las) := by
-  unfold splitTagged taggedSplit
-  by_cases hp : TAG_PREFIX.isPrefixOf las = true
-  · obtain ⟨t, ht⟩ := List.isPrefixOf_iff_prefix.mp hp
-    subst ht
-    have hd : dropBytes (byteLen TAG_PREFIX) (TAG_PREFIX ++ t) = some t := dropBytes_byteLen_append _ _
-    have hd2 : (TAG_PREFIX ++ t).drop 8 = t := by simp [TAG_PREFIX]
-    simp only [hp, not_true_eq_false, if_false, if_true, hd, hd2, Res.ofOption_some, Res.bind_ok]
-  · simp [hp]
-
 theorem splitLine_eq (las : Str) :
     splitLine las =
-      match taggedSplit las with
-      | some lr => .ok (lr.2, lr.1)
+      match splitOnce UNTAG_SEP las with
+      | some lr => .ok lr
       | none =>
-        match splitOnce UNTAG_SEP las with
-        | some lr => .ok lr
-        | none => .err .format := by
-  unfold splitLine splitUntagged
-  rw [splitTagged_eq, Res.bind_ok]
-  cases taggedSplit las with
-  | some lr => rfl
-  | none => cases splitOnce UNTAG_SEP las <;> rfl
+        if TAG_PREFIX.isPrefixOf las then
+          match rsplitOnce TAG_SEP (las.drop 8) with
+          | some lr => .ok (lr.2, lr.1)
+          | none => .err .format
+        else .err .format := by
+  unfold splitLine splitUntagged splitTagged
+  cases h : splitOnce UNTAG_SEP las with
+  | some lr => simp
+  | none =>
+    by_cases hp : TAG_PREFIX.isPrefixOf las = true
+    · obtain ⟨t, ht⟩ := List.isPrefixOf_iff_prefix.mp hp
+      subst ht
+      have hd : dropBytes (byteLen TAG_PREFIX) (TAG_PREFIX ++ t) = some t := dropBytes_byteLen_append _ _
+      have hd2 : (TAG_PREFIX ++ t).drop 8 = t := by simp [TAG_PREFIX]
+      simp only [hp, not_true_eq_false, if_false, if_true, hd, hd2, Res.ofOption_some, Res.bind_ok]
+      cases rsplitOnce TAG_SEP t <;> simp
+    · simp [hp]
 
 /-- a path that can be checked: non-empty, no NUL, no U+FFFD -/
 def ValidPath (p : Str) : Prop := p ≠ [] ∧ NUL ∉ p ∧ REPL ∉ p
@@ -815,26 +883,25 @@ def fields (line : Str) : Option (Bool × Str × Str) :=
 
 theorem splitLine_ne_panic (las : Str) : splitLine las ≠ .panic := by
   rw [splitLine_eq]
-  cases taggedSplit las with
+  cases splitOnce UNTAG_SEP las with
   | some lr => simp
-  | none => cases splitOnce UNTAG_SEP las <;> simp
+  | none =>
+    simp only
+    split
+    · cases rsplitOnce TAG_SEP (las.drop 8) <;> simp
+    · simp
 
 theorem splitLine_err {las : Str} {e : PErr} (h : splitLine las = .err e) : e = .format := by
   rw [splitLine_eq] at h
-  cases ht : taggedSplit las with
-  | some lr => rw [ht] at h; simp at h
+  cases hs : splitOnce UNTAG_SEP las with
+  | some lr => rw [hs] at h; simp at h
   | none =>
-    rw [ht] at h
-    cases hs : splitOnce UNTAG_SEP las with
-    | some lr => rw [hs] at h; simp at h
-    | none => rw [hs] at h; simp at h; exact h.symm
-
-theorem isAscii_iff {s : Str} : isAscii s = true ↔ AllAscii s := by
-  unfold isAscii AllAscii
-  simp only [List.all_eq_true, decide_eq_true_eq]
-  constructor
-  · intro h c hc; exact (utf8Len_eq_one_iff c).mpr (h c hc)
-  · intro h c hc; exact (utf8Len_eq_one_iff c).mp (h c hc)
+    rw [hs] at h
+    simp only at h
+    split at h
+    · cases hr : rsplitOnce TAG_SEP (las.drop 8) <;> rw [hr] at h <;> simp at h
+      exact h.symm
+    · simp at h; exact h.symm
 
 /-- `parse_check_line` in terms of the fields -/
 theorem parse_eq_fields (line : Str) :
@@ -843,7 +910,6 @@ theorem parse_eq_fields (line : Str) :
       | none => if trimEndCRLF line = [] then .err .emptyLine else .err .format
       | some (esc, hf, fs) =>
         if byteLen hf ≠ 64 then .err .hashLength
-        else if ¬ isAscii hf then .err .hex
         else (decodeHashLoop 32 hf).bind fun hb => finish esc fs hb := by
   rw [parseCheckLine_eq]
   unfold fields
@@ -866,40 +932,40 @@ theorem parse_eq_fields (line : Str) :
       | panic => exact absurd hs (splitLine_ne_panic _)
 
 theorem splitLine_ok {las hf fs : Str} (h : splitLine las = .ok (hf, fs)) :
-    las = TAG_PREFIX ++ fs ++ TAG_SEP ++ hf ∨ las = hf ++ UNTAG_SEP ++ fs := by
+    las = hf ++ UNTAG_SEP ++ fs ∨ (las = TAG_PREFIX ++ fs ++ TAG_SEP ++ hf ∧ hasDbl las = false) := by
   rw [splitLine_eq] at h
-  cases ht : taggedSplit las with
+  cases hs : splitOnce UNTAG_SEP las with
   | some lr =>
-    obtain ⟨a, b⟩ := lr
-    rw [ht] at h
+    rw [hs] at h
     simp at h
-    obtain ⟨h1, h2⟩ := h
-    subst h1 h2
-    unfold taggedSplit at ht
-    split at ht
-    · rename_i hp
-      obtain ⟨t, htp⟩ := List.isPrefixOf_iff_prefix.mp hp
-      have hd : las.drop 8 = t := by rw [← htp]; simp [TAG_PREFIX]
-      rw [hd] at ht
-      have := rsplitOnce_sound ht
-      left
-      rw [← htp, this]; simp
-    · simp at ht
+    subst h
+    exact Or.inl (splitOnce_sound hs)
   | none =>
-    rw [ht] at h
-    cases hs : splitOnce UNTAG_SEP las with
-    | some lr =>
-      rw [hs] at h
-      simp at h
-      subst h
-      exact Or.inr (splitOnce_sound hs)
-    | none => rw [hs] at h; simp at h
+    rw [hs] at h
+    simp only at h
+    split at h
+    · rename_i hp
+      obtain ⟨t, ht⟩ := List.isPrefixOf_iff_prefix.mp hp
+      cases hr : rsplitOnce TAG_SEP (las.drop 8) with
+      | none => rw [hr] at h; simp at h
+      | some lr =>
+        obtain ⟨a, b⟩ := lr
+        rw [hr] at h
+        simp at h
+        obtain ⟨h1, h2⟩ := h
+        subst h1 h2
+        have hd : las.drop 8 = t := by rw [← ht]; simp [TAG_PREFIX]
+        rw [hd] at hr
+        have := rsplitOnce_sound hr
+        refine Or.inr ⟨?_, (splitOnce_none_iff las).mp hs⟩
+        rw [← ht, this]; simp
+    · simp at h
 
 /-- the shape of a line with given fields -/
 theorem fields_shape {line : Str} {esc : Bool} {hf fs : Str} (h : fields line = some (esc, hf, fs)) :
     ∃ body, trimEndCRLF line = (if esc then '\\' :: body else body) ∧
       (esc = false → body.head? ≠ some '\\') ∧
-      (body = TAG_PREFIX ++ fs ++ TAG_SEP ++ hf ∨ body = hf ++ UNTAG_SEP ++ fs) := by
+      (body = hf ++ UNTAG_SEP ++ fs ∨ (body = TAG_PREFIX ++ fs ++ TAG_SEP ++ hf ∧ hasDbl body = false)) := by
   unfold fields at h
   cases ht : trimEndCRLF line with
   | nil => rw [ht] at h; simp at h
@@ -1059,19 +1125,16 @@ theorem parse_ok_iff (line : Str) (r : Parsed) :
       · simp at h
       · rename_i hl
         have hl' : byteLen hfld = 64 := by simpa using hl
-        split at h
-        · simp at h
-        · obtain ⟨hb, hdec, hfin⟩ := Res.bind_eq_ok.mp h
-          obtain ⟨h1, h2⟩ := (decode64_ok_iff hl' hb).mp hdec
-          obtain ⟨p, hp, hv, hr⟩ := finish_ok hfin
-          subst hr
-          exact ⟨fs, p, by simp [h1], h2, hp, hv, rfl, rfl⟩
+        obtain ⟨hb, hdec, hfin⟩ := Res.bind_eq_ok.mp h
+        obtain ⟨h1, h2⟩ := (decode64_ok_iff hl' hb).mp hdec
+        obtain ⟨p, hp, hv, hr⟩ := finish_ok hfin
+        subst hr
+        exact ⟨fs, p, by simp [h1], h2, hp, hv, rfl, rfl⟩
   · intro ⟨fs, p, hf, hl, hp, hv, h1, h2⟩
     rw [hf]
     simp only
     have hbl : byteLen (hexEncode r.expectedHash) = 64 := by rw [byteLen_hexEncode, hl]
-    have hasc : isAscii (hexEncode r.expectedHash) = true := isAscii_iff.mpr (allHex_hexEncode _).ascii
-    rw [if_neg (by simp [hbl]), if_neg (by simp [hasc])]
+    rw [if_neg (by simp [hbl])]
     have := (decode64_ok_iff hbl r.expectedHash).mpr ⟨rfl, hl⟩
     rw [this, Res.bind_ok, finish_eq, hp]
     obtain ⟨h0, hn, hr⟩ := hv
@@ -1080,33 +1143,77 @@ theorem parse_ok_iff (line : Str) (r : Parsed) :
     simp at h1 h2 ⊢
     exact ⟨h1.symm, h2.symm⟩
 
-/-- `parse_check_line` never panics -/
-theorem parse_ne_panic (line : Str) : parseCheckLine line ≠ .panic := by
+/-- panics, completely characterised -/
+theorem parse_panic_iff (line : Str) :
+    parseCheckLine line = .panic ↔
+      ∃ esc hf fs, fields line = some (esc, hf, fs) ∧ byteLen hf = 64 ∧ hf.length % 2 = 1 ∧ AllHex hf.dropLast := by
   rw [parse_eq_fields]
-  cases fields line with
-  | none => simp only; split <;> simp
-  | some t =>
-    obtain ⟨esc, hf, fs⟩ := t
-    simp only
-    split
-    · simp
-    · rename_i hl
-      have hl' : byteLen hf = 64 := by simpa using hl
-      split
-      · simp
-      · rename_i ha
-        have ha' : AllAscii hf := isAscii_iff.mp (by simpa using ha)
-        intro h
+  constructor
+  · intro h
+    cases hfl : fields line with
+    | none => rw [hfl] at h; simp only at h; split at h <;> simp at h
+    | some t =>
+      obtain ⟨esc, hf, fs⟩ := t
+      rw [hfl] at h
+      simp only at h
+      split at h
+      · simp at h
+      · rename_i hl
+        have hl' : byteLen hf = 64 := by simpa using hl
         rcases Res.bind_eq_panic.mp h with hp | ⟨hb, _, hp⟩
-        · exact decodeHashLoop_ne_panic_of_ascii ha' (by omega) hp
-        · exact finish_ne_panic _ _ _ hp
+        · obtain ⟨h1, h2⟩ := (decodeHashLoop_panic_iff 32 hf).mp hp
+          refine ⟨esc, hf, fs, rfl, hl', ?_⟩
+          by_cases hodd : hf.length % 2 = 1
+          · refine ⟨hodd, ?_⟩
+            intro c hc
+            apply h2
+            rw [List.dropLast_eq_take] at hc
+            have : 2 * (hf.length / 2) = hf.length - 1 := by omega
+            rw [this]; exact hc
+          · exfalso
+            have he : 2 * (hf.length / 2) = hf.length := by omega
+            rw [he, List.take_length] at h2
+            have : AllAscii hf := fun c hc => isLowerHex_ascii (h2 c hc)
+            rw [byteLen_of_ascii this] at hl'
+            omega
+        · exact absurd hp (finish_ne_panic _ _ _)
+  · intro ⟨esc, hf, fs, hfl, hl, hodd, hhex⟩
+    rw [hfl]
+    simp only
+    rw [if_neg (by simp [hl])]
+    have hlen := length_le_byteLen hf
+    have : decodeHashLoop 32 hf = .panic := by
+      rw [decodeHashLoop_panic_iff]
+      refine ⟨by omega, ?_⟩
+      intro c hc
+      apply hhex
+      rw [List.dropLast_eq_take]
+      have : 2 * (hf.length / 2) = hf.length - 1 := by omega
+      rw [this] at hc; exact hc
+    rw [this]; rfl
 
-/-- a line that is not accepted is an error -/
-theorem not_ok_err {line : Str} (h : ∀ r, parseCheckLine line ≠ .ok r) : ∃ e, parseCheckLine line = .err e := by
+theorem parse_panic_nonascii {line : Str} (h : parseCheckLine line = .panic) :
+    ∃ esc hf fs, fields line = some (esc, hf, fs) ∧ ¬ AllAscii hf := by
+  obtain ⟨esc, hf, fs, hfl, hl, hodd, _⟩ := (parse_panic_iff line).mp h
+  refine ⟨esc, hf, fs, hfl, ?_⟩
+  intro ha
+  rw [byteLen_of_ascii ha] at hl
+  omega
+
+/-- the three-way outcome when a line is not accepted -/
+theorem not_ok_cases {line : Str} {esc : Bool} {hf fs : Str} (hfl : fields line = some (esc, hf, fs))
+    (h : ∀ r, parseCheckLine line ≠ .ok r) :
+    (∃ e, parseCheckLine line = .err e) ∨ (parseCheckLine line = .panic ∧ ¬ AllAscii hf) := by
   cases hp : parseCheckLine line with
   | ok r => exact absurd hp (h r)
-  | err e => exact ⟨e, rfl⟩
-  | panic => exact absurd hp (parse_ne_panic line)
+  | err e => exact Or.inl ⟨e, rfl⟩
+  | panic =>
+    obtain ⟨esc', hf', fs', hfl', hna⟩ := parse_panic_nonascii hp
+    rw [hfl] at hfl'
+    simp at hfl'
+    obtain ⟨_, h2, _⟩ := hfl'
+    subst h2
+    exact Or.inr ⟨rfl, hna⟩
 
 /-! ## parsing what `hash_one_input` prints -/
 
@@ -1137,6 +1244,14 @@ theorem isLowerHex_not_crlf {c : Char} (h : isLowerHex c = true) : isCRLF c = fa
   have h1 : c ≠ '\r' := isLowerHex_ne h (by decide)
   have h2 : c ≠ '\n' := isLowerHex_ne h (by decide)
   simp [isCRLF, h1, h2]
+
+theorem hasDbl_of_nospace {s : Str} (h : ' ' ∉ s) : hasDbl s = false := by
+  induction s with
+  | nil => rfl
+  | cons c cs ih =>
+    have hc : c ≠ ' ' := fun e => h (by simp [e])
+    have hcs : ' ' ∉ cs := fun e => h (by simp [e])
+    simp [hasDbl, hc, ih hcs]
 
 theorem formatLine_noCRLF (tag : Bool) (p : Str) {hh : Str} (hhex : AllHex hh) :
     ∀ c ∈ formatLine tag p hh, isCRLF c = false := by
@@ -1174,36 +1289,57 @@ theorem trim_formatLine (tag : Bool) (p : Str) {hh term : Str} (hhex : AllHex hh
     trimEndCRLF (formatLine tag p hh ++ term) = formatLine tag p hh := by
   rw [trimEnd_append_term _ ht.allCRLF, trimEnd_noCRLF (formatLine_noCRLF tag p hhex)]
 
-theorem taggedSplit_plain {hh : Str} (hhex : AllHex hh) (fs : Str) :
-    taggedSplit (hh ++ UNTAG_SEP ++ fs) = none := by
-  unfold taggedSplit
-  have : TAG_PREFIX.isPrefixOf (hh ++ UNTAG_SEP ++ fs) = false := by
-    cases hh with
-    | nil => simp [TAG_PREFIX, UNTAG_SEP, List.isPrefixOf]
-    | cons c cs =>
-      have hc : c ≠ 'B' := isLowerHex_ne (hhex c (by simp)) (by decide)
-      have hc' : ¬ 'B' = c := fun e => hc e.symm
-      simp [TAG_PREFIX, List.isPrefixOf, hc']
-  rw [this]; rfl
-
 theorem splitLine_plain {hh : Str} (hhex : AllHex hh) (fs : Str) :
     splitLine (hh ++ UNTAG_SEP ++ fs) = .ok (hh, fs) := by
-  rw [splitLine_eq, taggedSplit_plain hhex]
+  rw [splitLine_eq]
   have : ' ' ∉ hh := hhex.not_mem (by decide)
   have := splitOnce_prefix_nospace this fs
   simp only [UNTAG_SEP, List.append_assoc, List.cons_append, List.nil_append] at this ⊢
   rw [this]
 
-theorem splitLine_tagged (e : Str) {hh : Str} (hhex : AllHex hh) :
+theorem hasDbl_tagged (e : Str) {hh : Str} (hhex : AllHex hh) :
+    hasDbl (TAG_PREFIX ++ e ++ TAG_SEP ++ hh) = hasDbl e := by
+  have h1 : ∀ x : Str, hasDbl (TAG_PREFIX ++ x) = hasDbl x := by
+    intro x; simp [TAG_PREFIX, hasDbl]
+  have hsp : ' ' ∉ hh := hhex.not_mem (by decide)
+  have h2 : hasDbl (TAG_SEP ++ hh) = false := by
+    have hd := hasDbl_of_nospace hsp
+    cases hh with
+    | nil => simp [TAG_SEP, hasDbl]
+    | cons c cs =>
+      have hc : c ≠ ' ' := fun e => hsp (by simp [e])
+      simp [TAG_SEP, hasDbl, hc] at hd ⊢
+      exact hd
+  rw [List.append_assoc, List.append_assoc, h1, hasDbl_append_of_head (by simp [TAG_SEP]), h2]
+  simp
+
+theorem splitLine_tagged {e hh : Str} (hhex : AllHex hh) (hd : hasDbl e = false) :
     splitLine (TAG_PREFIX ++ e ++ TAG_SEP ++ hh) = .ok (hh, e) := by
   rw [splitLine_eq]
+  have hn : splitOnce UNTAG_SEP (TAG_PREFIX ++ e ++ TAG_SEP ++ hh) = none := by
+    rw [splitOnce_none_iff, hasDbl_tagged e hhex, hd]
+  rw [hn]
   have hp : TAG_PREFIX.isPrefixOf (TAG_PREFIX ++ e ++ TAG_SEP ++ hh) = true := by
     rw [List.isPrefixOf_iff_prefix]; exact ⟨e ++ TAG_SEP ++ hh, by simp⟩
   have hdrop : (TAG_PREFIX ++ e ++ TAG_SEP ++ hh).drop 8 = e ++ TAG_SEP ++ hh := by simp [TAG_PREFIX]
-  have : taggedSplit (TAG_PREFIX ++ e ++ TAG_SEP ++ hh) = some (e, hh) := by
-    unfold taggedSplit
-    rw [if_pos hp, hdrop, rsplitOnce_tag e (hhex.not_mem (by decide))]
-  rw [this]
+  simp only [hp, if_true, hdrop]
+  rw [rsplitOnce_tag e (hhex.not_mem (by decide))]
+
+theorem splitLine_tagged_dbl {e hh : Str} (hhex : AllHex hh) (hd : hasDbl e = true) :
+    ∃ l r, splitLine (TAG_PREFIX ++ e ++ TAG_SEP ++ hh) = .ok ('B' :: l, r) := by
+  rw [splitLine_eq]
+  cases hs : splitOnce UNTAG_SEP (TAG_PREFIX ++ e ++ TAG_SEP ++ hh) with
+  | none =>
+    rw [splitOnce_none_iff, hasDbl_tagged e hhex, hd] at hs
+    simp at hs
+  | some lr =>
+    obtain ⟨l, r⟩ := lr
+    have hB : TAG_PREFIX ++ e ++ TAG_SEP ++ hh = 'B' :: (['L', 'A', 'K', 'E', '3', ' ', '('] ++ e ++ TAG_SEP ++ hh) := by
+      simp [TAG_PREFIX]
+    rw [hB] at hs
+    obtain ⟨l', hl⟩ := splitOnce_cons_ne (by decide) hs
+    subst hl
+    exact ⟨l', r, rfl⟩
 
 theorem hexEncode_head {hb : List UInt8} (h : hb.length = 32) :
     ∃ c rest, hexEncode hb = c :: rest ∧ isLowerHex c = true := by
@@ -1225,7 +1361,7 @@ theorem fields_plain (p : Str) {hb : List UInt8} (hl : hb.length = 32) {term : S
     exact ⟨c, rest ++ UNTAG_SEP ++ escapeSpec p, by simp [hc], isLowerHex_ne hx (by decide)⟩
   · exact splitLine_plain hhex _
 
-theorem fields_tagged (p : Str) {hb : List UInt8} {term : Str} (ht : IsTerm term) :
+theorem fields_tagged (p : Str) {hb : List UInt8} {term : Str} (ht : IsTerm term) (hd : hasDbl p = false) :
     fields (formatLine true p (hexEncode hb) ++ term) = some (needsEscape p, hexEncode hb, escapeSpec p) := by
   have hhex := allHex_hexEncode hb
   apply fields_of_trim (body := TAG_PREFIX ++ escapeSpec p ++ TAG_SEP ++ hexEncode hb)
@@ -1233,7 +1369,19 @@ theorem fields_tagged (p : Str) {hb : List UInt8} {term : Str} (ht : IsTerm term
     cases needsEscape p <;> simp
   · intro _
     exact ⟨'B', ['L', 'A', 'K', 'E', '3', ' ', '('] ++ escapeSpec p ++ TAG_SEP ++ hexEncode hb, by simp [TAG_PREFIX], by decide⟩
-  · exact splitLine_tagged _ hhex
+  · exact splitLine_tagged hhex (by rw [hasDbl_escapeSpec, hd])
+
+theorem fields_tagged_dbl (p : Str) {hb : List UInt8} {term : Str} (ht : IsTerm term) (hd : hasDbl p = true) :
+    ∃ l r, fields (formatLine true p (hexEncode hb) ++ term) = some (needsEscape p, 'B' :: l, r) := by
+  have hhex := allHex_hexEncode hb
+  obtain ⟨l, r, hs⟩ := splitLine_tagged_dbl (e := escapeSpec p) hhex (by rw [hasDbl_escapeSpec, hd])
+  refine ⟨l, r, ?_⟩
+  apply fields_of_trim (body := TAG_PREFIX ++ escapeSpec p ++ TAG_SEP ++ hexEncode hb)
+  · rw [trim_formatLine true p hhex ht, formatLine_eq]
+    cases needsEscape p <;> simp
+  · intro _
+    exact ⟨'B', ['L', 'A', 'K', 'E', '3', ' ', '('] ++ escapeSpec p ++ TAG_SEP ++ hexEncode hb, by simp [TAG_PREFIX], by decide⟩
+  · exact hs
 
 theorem pathOf_fmt (p : Str) : pathOf (needsEscape p) (escapeSpec p) = some p := by
   unfold pathOf
@@ -1252,9 +1400,27 @@ theorem parse_of_fields_fmt {line : Str} {p : Str} {hb : List UInt8} (hl : hb.le
   rw [parse_eq_fields, hf]
   simp only
   have hbl : byteLen (hexEncode hb) = 64 := by rw [byteLen_hexEncode, hl]
-  have hasc : isAscii (hexEncode hb) = true := isAscii_iff.mpr (allHex_hexEncode _).ascii
-  rw [if_neg (by simp [hbl]), if_neg (by simp [hasc]), (decode64_ok_iff hbl hb).mpr ⟨rfl, hl⟩, Res.bind_ok,
-    finish_eq, pathOf_fmt]
+  rw [if_neg (by simp [hbl]), (decode64_ok_iff hbl hb).mpr ⟨rfl, hl⟩, Res.bind_ok, finish_eq, pathOf_fmt]
+
+theorem parse_tagged_dbl_err (p : Str) {hb : List UInt8} {term : Str} (ht : IsTerm term) (hd : hasDbl p = true) :
+    parseCheckLine (formatLine true p (hexEncode hb) ++ term) = .err .hashLength ∨
+    parseCheckLine (formatLine true p (hexEncode hb) ++ term) = .err .hex := by
+  obtain ⟨l, r, hf⟩ := fields_tagged_dbl p (hb := hb) ht hd
+  rw [parse_eq_fields, hf]
+  simp only
+  by_cases hl : byteLen ('B' :: l) = 64
+  · right
+    rw [if_neg (by simp [hl])]
+    cases l with
+    | nil => simp at hl; exact absurd hl (by decide)
+    | cons lo rest =>
+      have : decodeHashLoop 32 ('B' :: lo :: rest) = .err .hex := by
+        rw [show (32 : Nat) = 31 + 1 from rfl, decodeHashLoop_step]
+        have : isLowerHex 'B' = false := by decide
+        simp [this]
+      rw [this]; rfl
+  · left
+    rw [if_pos (by simpa using hl)]
 
 /-! ## injectivity of the output format -/
 
@@ -1590,18 +1756,18 @@ def countFailed (env : Env) (lines : List Str) (n : Nat) : Nat :=
 
 def allEvs (env : Env) (lines : List Str) : List Ev := lines.flatMap fun l => (lineVerdict env l).2
 
-theorem checkOneLine_ne_panicked (env : Env) (l : Str) : checkOneLine env l ≠ .panicked :=
-  fun hc => parse_ne_panic l ((checkOneLine_spec env l).2.2.2.mp hc)
+/-- the entry can be processed: non-empty and the parser does not panic on it -/
+def Processable (l : Str) : Prop := l ≠ [] ∧ parseCheckLine l ≠ .panic
 
-theorem checkLines_ok (env : Env) (lines : List Str) (h : ∀ l ∈ lines, l ≠ []) (st : CheckState) :
+theorem checkLines_ok (env : Env) (lines : List Str) (h : ∀ l ∈ lines, Processable l) (st : CheckState) :
     checkLines env (lines.map Except.ok) st =
       .finished { failed := countFailed env lines st.failed, evs := st.evs ++ allEvs env lines } := by
   induction lines generalizing st with
   | nil => simp [checkLines, countFailed, allEvs]
   | cons l rest ih =>
-    have hne := h l (by simp)
+    obtain ⟨hne, hnp⟩ := h l (by simp)
     have hbl : ¬ byteLen l = 0 := fun h => hne (byteLen_eq_zero.mp h)
-    have hnp' := checkOneLine_ne_panicked env l
+    have hnp' : checkOneLine env l ≠ .panicked := fun hc => hnp ((checkOneLine_spec env l).2.2.2.mp hc)
     simp only [List.map_cons]
     unfold checkLines
     rw [if_neg hbl]
@@ -1612,7 +1778,7 @@ theorem checkLines_ok (env : Env) (lines : List Str) (h : ∀ l ∈ lines, l ≠
       rw [ih (fun x hx => h x (by simp [hx]))]
       simp [countFailed, allEvs, lineVerdict, hc]
 
-theorem runCheck_ok (env : Env) (files : List (List Str)) (h : ∀ ls ∈ files, ∀ l ∈ ls, l ≠ [])
+theorem runCheck_ok (env : Env) (files : List (List Str)) (h : ∀ ls ∈ files, ∀ l ∈ ls, Processable l)
     (st : CheckState) :
     runCheck env (files.map fun ls => Except.ok (ls.map Except.ok)) st =
       let n := countFailed env files.flatten st.failed
@@ -1646,36 +1812,6 @@ theorem countFailed_pos_iff (env : Env) (lines : List Str) (n : Nat) :
       have := satAdd1_pos n
       simp [hv]
       omega
-
-theorem checkLines_ne_panicked (env : Env) (lines : List ReadLine) (st st' : CheckState) :
-    checkLines env lines st ≠ .panicked st' := by
-  induction lines generalizing st with
-  | nil => simp [checkLines]
-  | cons rl rest ih =>
-    cases rl with
-    | error e => simp [checkLines]
-    | ok line =>
-      unfold checkLines
-      split
-      · simp
-      · cases hc : checkOneLine env line with
-        | panicked => exact absurd hc (checkOneLine_ne_panicked env line)
-        | done s e => exact ih _
-
-/-- the exit status of a `--check` run is 0 or 1 (never the 101 of a panic) -/
-theorem runCheck_exit_01 (env : Env) (files : List CheckSrc) (st : CheckState) :
-    (runCheck env files st).exit = 0 ∨ (runCheck env files st).exit = 1 := by
-  induction files generalizing st with
-  | nil => unfold runCheck; split <;> simp
-  | cons src rest ih =>
-    cases src with
-    | error e => unfold runCheck; simp
-    | ok lines =>
-      unfold runCheck
-      cases hc : checkLines env lines st with
-      | finished st' => exact ih st'
-      | ioError e st' => simp
-      | panicked st' => exact absurd hc (checkLines_ne_panicked env lines st st')
 
 /-! ## UTF-8 decoding -/
 
@@ -1820,8 +1956,8 @@ theorem lossy_injective_of_norepl {b1 b2 : List UInt8} (h1 : REPL ∉ lossyDecod
 /-- 62 hex digits followed by `é`: a hash field of 64 BYTES but 63 characters -/
 def badHash : Str := List.replicate 62 'a' ++ ['é']
 
-/-- `aaaa…aaé  x` (panicked before fix 008d515; now an "Invalid hex" error) -/
-def nonAsciiHashLine : Str := badHash ++ [' ', ' ', 'x']
+/-- `aaaa…aaé  x` -/
+def panicLine : Str := badHash ++ [' ', ' ', 'x']
 
 /-- a 32-byte hash (hex `aa…aa`) -/
 def hashA : List UInt8 := List.replicate 32 0xaa
